@@ -20,12 +20,16 @@ EXPLANATION = (
     "flattened_sum and flattened_product for every input list -- loop invariant 'fold(done) + fold(queue) = fold(terms)' in "
     "an abstract commutative monoid (uninterpreted element values, folds instantiated without quantifiers), zero-valued "
     "factors tracked for the early 'return 0', result flat (no node of the flattened class, no neutral element, a node "
-    "only with >= 2 children), termination by a size measure; FlattenMapper.map_sum / map_product for every arity 0..3 and "
+    "only with >= 2 children), termination by a size measure; ConstantFoldingMapperBase.fold for sums and products "
+    "(partial correctness: value preserved for arbitrary rec / is_constant / evaluate obeying their contracts, no foldable "
+    "element left among the non-constants); FlattenMapper.map_sum / map_product for every arity 0..3 and "
     "DistributeMapper.map_quotient preserve the value through those contracts.")
 ASSUMPTIONS = ["definitions instantiated as assumptions in the loop proofs: an n-ary node denotes the fold over its children; is_zero(x) true => x denotes zero "
                "(A-RING, bounded-validated in C03); is_zero(x - 1) true => x denotes one; the statements proved are linear in uninterpreted monoid values, "
                "hence valid in (Q,+,0) and (Q,*,1)",
-               "ConstantFoldingMapperBase.fold, TermCollector.split_term/map_sum (dict bookkeeping) and dist() (recursive closure) are bounded only",
+               "fold(): rec returns a term of equal value (induction hypothesis), evaluate returns None or a number of equal value, reduce(op, cs) denotes the "
+               "monoid fold of cs; termination of fold() depends on rec and is not claimed",
+               "TermCollector.split_term/map_sum (dict bookkeeping) and dist() (recursive closure) are bounded only",
                "real arithmetic mathematical; arity bound 3 for the FlattenMapper handlers"]
 TRUSTED_BASE = ["z3 nonlinear real arithmetic", "own exact polynomial arithmetic (props.c11.Poly/RF) as the reference normal form"]
 
@@ -571,6 +575,7 @@ def proof_jobs(tier):
     from contracts import c11 as K
     jobs = [("mapper", mc, getattr(p, k), K.hooks) for mc, k in K.MAPPER_JOBS]
     jobs += [("function", fc, None, K.fold_hooks) for fc in K.LOOP_FUNCTIONS]
+    jobs += [("function", fc, None, None) for fc in K.FOLD_FUNCTIONS]
     return jobs
 
 
